@@ -145,6 +145,35 @@ func genC15(c *Ctx) {
 			c.mark(fmt.Sprintf("nsi(%d,%d,%d)", cursor, l, t))
 		}
 	}
+	// the arithmetic functions are pure: the same points asked again in another order, interleaved with
+	// near-colliding arguments (n and n+1, t and t +- 256), and thresholds far above the usual range
+	{
+		type pt struct{ cursor, n, t int }
+		var ps []pt
+		for i := 0; i < 120*c.scale; i++ {
+			n := 1 + r.Intn(20000)
+			if r.Bool(30) {
+				n = pick(r, []int{100, 512, 513, 1024, 1280, 8192, 8193, 9000, 16384, 20000})
+			}
+			t := pick(r, []int{1, 2, 3, 64, 130, 255, 256, 257, 512, 1000, 65536})
+			ps = append(ps, pt{r.Intn(1 << 15), n, t}, pt{r.Intn(1 << 15), n + 1, t}, pt{r.Intn(1 << 15), n, t})
+		}
+		first := make([][3]int, len(ps))
+		for i, p := range ps {
+			first[i] = [3]int{inclusion.SubTreeWidth(p.n, p.t), inclusion.NextShareIndex(p.cursor, p.n, p.t), inclusion.BlobMinSquareSize(p.n)}
+			c.add("stw", s(p.n), s(p.t))
+			c.add("nsi", s(p.cursor), s(p.n), s(p.t))
+			oracleC15Width(c, p.n, p.t)
+			w := first[i][0]
+			c.check(first[i][1]%w == 0 && first[i][1] >= p.cursor && first[i][1]-p.cursor < w, "NextShareIndex", "not the least multiple of the subtree width at or after the cursor", map[string]any{"cursor": p.cursor, "len": p.n, "t": p.t})
+		}
+		for i := len(ps) - 1; i >= 0; i-- {
+			p := ps[i]
+			again := [3]int{inclusion.SubTreeWidth(p.n, p.t), inclusion.NextShareIndex(p.cursor, p.n, p.t), inclusion.BlobMinSquareSize(p.n)}
+			c.check(again == first[i], "SubTreeWidth/NextShareIndex/BlobMinSquareSize", "the answer to the same question depends on which questions were asked before", map[string]any{"cursor": p.cursor, "len": p.n, "t": p.t})
+		}
+		c.count("repeated_in_other_order")
+	}
 	// rounding helpers
 	var pts []int
 	for i := -3; i <= 2100; i++ {
@@ -588,6 +617,24 @@ func genC18(c *Ctx) {
 		d[1+r.Intn(18)] ^= byte(1 + r.Intn(255))
 		set = append(set, d)
 	}
+	// all version-0 values with one or two non-zero user bytes drawn from {01, 7f, 80, ff}: predicates and
+	// validation only (no pairwise comparison), 760 values
+	var sparseNs [][]byte
+	vals := []byte{0x01, 0x7f, 0x80, 0xff}
+	for p1 := 19; p1 < 29; p1++ {
+		for _, v1 := range vals {
+			a := make([]byte, 29)
+			a[p1] = v1
+			sparseNs = append(sparseNs, a)
+			for p2 := p1 + 1; p2 < 29; p2++ {
+				for _, v2 := range vals {
+					b := append([]byte{}, a...)
+					b[p2] = v2
+					sparseNs = append(sparseNs, b)
+				}
+			}
+		}
+	}
 	sgn := func(x int) int {
 		if x < 0 {
 			return -1
@@ -599,6 +646,16 @@ func genC18(c *Ctx) {
 	}
 	maxPrim := share.MaxPrimaryReservedNamespace.Bytes()
 	minSec := share.MinSecondaryReservedNamespace.Bytes()
+	for _, a := range sparseNs {
+		c.add("nsinfo", hx(a))
+		x := nsOf(a)
+		prim := bytes.Compare(a, maxPrim) <= 0
+		c.check(x.IsPrimaryReserved() == prim && !x.IsSecondaryReserved() && x.IsReserved() == prim && (x.ValidateForBlob() == nil) == !prim &&
+			x.IsTx() == bytes.Equal(a, share.TxNamespace.Bytes()) && x.IsPayForBlob() == bytes.Equal(a, share.PayForBlobNamespace.Bytes()) &&
+			x.IsPrimaryReservedPadding() == bytes.Equal(a, maxPrim) && !x.IsTailPadding() && !x.IsParityShares(),
+			"namespace predicates", "differ from their intervals / constants on a namespace with one or two non-zero bytes", map[string]any{"ns": hx(a)})
+	}
+	c.count("sparse_namespaces")
 	for _, a := range set {
 		c.add("nsinfo", hx(a))
 		x := nsOf(a)
